@@ -352,6 +352,70 @@ def check_one(task):
     return {"valid": bool(valid), "results": results, "problems": problems}
 
 
+# ------------------------------------------------------------------ incomplete objects in batches
+MANDATORY = ("dimension", "diameter", "vertices", "polarization", "current", "moment", "field_func")
+BATCH_FORMS = ["alone", "first", "last", "third", "after_other_class", "collection", "sensor_star", "two_incomplete"]
+
+
+def incomplete_task(task):
+    """None is the documented value for 'not yet set': an object with a mandatory input still unset must make
+    every field computation it takes part in raise MagpylibMissingInput - never an internal error - wherever
+    it stands in the batch."""
+    import magpylib as magpy
+    from magpylib._src.exceptions import MagpylibMissingInput
+
+    cls, attr, how = task[1:]
+    C, base = classes()[cls]
+    other_cls = "Dipole" if cls != "Dipole" else "Circle"
+    OC, obase = classes()[other_cls]
+    problems, n = [], 0
+
+    def complete(shift=0.0):
+        return C(position=(shift, 0, 0), **base)
+
+    def incomplete():
+        if how == "ctor_omitted":
+            return C(**{k: v for k, v in base.items() if k != attr})
+        if how == "ctor_none":
+            return C(**dict(base, **{attr: None}))
+        o = C(**base)
+        setattr(o, attr, None)
+        return o
+
+    obs = [(7.0, 8.0, 9.0), (-3.0, 2.0, 5.0)]
+    for form in BATCH_FORMS:
+        for fname in ("getB", "getH"):
+            n += 1
+            try:
+                I = incomplete()
+                if form == "alone":
+                    call = lambda: getattr(I, fname)(obs)
+                elif form == "first":
+                    call = lambda: getattr(magpy, fname)([I, complete(1)], obs)
+                elif form == "last":
+                    call = lambda: getattr(magpy, fname)([complete(1), I], obs)
+                elif form == "third":
+                    call = lambda: getattr(magpy, fname)([complete(1), complete(2), I], obs, sumup=True)
+                elif form == "after_other_class":
+                    call = lambda: getattr(magpy, fname)([complete(1), OC(**obase), I], obs)
+                elif form == "collection":
+                    col = magpy.Collection(complete(1), I)
+                    call = lambda: getattr(col, fname)(obs)
+                elif form == "sensor_star":
+                    sens = magpy.Sensor(position=(7, 8, 9))
+                    call = lambda: getattr(sens, fname)(complete(1), I)
+                elif form == "two_incomplete":
+                    I2 = incomplete()
+                    call = lambda: getattr(magpy, fname)([complete(1), I, I2], obs)
+                call()
+                problems.append((f"incomplete-object-computed-{form}", fname))
+            except MagpylibMissingInput:
+                pass
+            except Exception as e:
+                problems.append((f"incomplete-object-internal-error-{type(e).__name__}-{form}", fname))
+    return {"valid": True, "results": {}, "problems": problems, "n": n}
+
+
 def C0():
     import magpylib as magpy
 
@@ -360,6 +424,8 @@ def C0():
 
 def work(task):
     try:
+        if task[0] == "incomplete":
+            return incomplete_task(task)
         return check_one(task)
     except Exception as e:
         import traceback
@@ -371,9 +437,21 @@ def run(tier, seed):
     common.bind_repo()
     G = grammar("thorough")
     tasks = [(cls, attr, n, v) for (cls, attr) in SPEC for n, v in G]
+    itasks = [("incomplete", cls, attr, how) for cls, (C, base) in classes().items() if cls != "Sensor"
+              for attr in base if attr in MANDATORY for how in ("ctor_omitted", "ctor_none", "setter_none")]
+    ires = common.pmap(work, itasks)
     res = common.pmap(work, tasks)
     viols, harness = [], []
     nacc = nrej = namb = 0
+    ninc = 0
+    for t, r in zip(itasks, ires):
+        if r.get("harness"):
+            harness.append(f"{t}: {r['harness']}")
+            continue
+        ninc += r["n"]
+        for kind, fname in r["problems"]:
+            viols.append({"key": f"C17|{t[1]}.{t[2]}|{kind}", "what": f"{t[1]} with {t[2]} unset ({t[3]}), {fname}: {kind}",
+                          "case": {"incomplete": list(t)}, "observed": [kind, fname]})
     for (cls, attr, n, v), r in zip(tasks, res):
         if r.get("harness"):
             harness.append(f"{cls}.{attr} {n}: {r['harness']}")
@@ -389,7 +467,8 @@ def run(tier, seed):
                           "what": f"{cls}.{attr} = {n} ({_short(v)}) via {via}: {kind}",
                           "case": {"cls": cls, "attr": attr, "vname": n, "tier": tier}, "observed": [kind, via]})
     cov = {
-        "evaluations": 3 * (len(tasks) - namb), "distinct_nontrivial": len(tasks) - namb,
+        "evaluations": 3 * (len(tasks) - namb) + ninc, "distinct_nontrivial": len(tasks) - namb + ninc,
+        "incomplete_object_batch_calls": ninc, "batch_forms": BATCH_FORMS,
         "rule": "one evaluation = one assignment (constructor | setter | copy kwarg) of one grammar value to one attribute; "
                 "every (attribute, value) pair is distinct; non-trivial = not excluded as ambiguous by the spec table",
         "samples": [{"cls": t[0], "attr": t[1], "value": t[2]} for t in (tasks[3], tasks[len(tasks) // 2], tasks[-7])],
@@ -410,6 +489,9 @@ def _short(v):
 
 
 def replay(case):
+    if "incomplete" in case:
+        r = work(tuple(case["incomplete"]))
+        return {"violated": bool(r["problems"]), "observed": r["problems"]}
     G = dict(grammar(case.get("tier", "thorough")))
     r = work((case["cls"], case["attr"], case["vname"], G[case["vname"]]))
     return {"violated": bool(r["problems"]), "observed": r["problems"]}
